@@ -238,7 +238,14 @@ def run(ctx):
                 else:
                     rows.append([(rng.uniform(-big, big) if rng.random() < 0.6 else 0.0) for _ in range(4)])
             dt = rng.choice([np.float32, np.float32, np.float64])
-            lg = _sp.csc_matrix(np.array(rows, dtype=dt))
+            arr = np.array(rows, dtype=dt)
+            if rng.random() < 0.3:
+                # sparse logits built from (row, col, value) triplets: zeros are STORED explicitly; they still read 0.0 = pruned
+                rr, cc = np.nonzero(np.ones_like(arr))
+                lg = _sp.csc_matrix((arr[rr, cc], (rr, cc)), shape=arr.shape)
+                ctx.count('dense:explicit-zeros')
+            else:
+                lg = _sp.csc_matrix(arr)
             tol = 1e-4 if dt == np.float32 else 1e-9
             kind = 'float32' if dt == np.float32 else 'float64-wide'
         ctx.count('dense:' + kind)
@@ -267,7 +274,7 @@ def run(ctx):
                     or np.abs(np.exp(np.asarray(lp2, dtype=np.float64)).sum(axis=1) - 1).max(initial=0) > max(tol, 1e-9) * 10
             if bad:
                 ctx.violation('dense-floor-logprobs', 'log-probabilities are not the row-normalised dense logits for the requested floor', dict(rep_in, floor=floor))
-        if lg.nnz != (st != 0).sum() or not np.array_equal(lg.toarray(), st):
+        if not np.array_equal(lg.toarray(), st):
             ctx.violation('dense-mutates', 'dense reconstruction modified the stored sparse logits', rep_in)
     # end-to-end rebuild: PAGE XML + logits -> same greedy text, same ALTO words
     e2e(ctx, rng)
